@@ -1797,6 +1797,9 @@ def r_edge(E):
                     res.samples.append({"field": h, "writer": q, "site": norm(n)[:70]})
     # attach / detach pairing in ExplainableObject.set_modeling_obj_container
     rel, fn = pm.find_function(EB, "ExplainableObject.set_modeling_obj_container")
+    # (split into steps — check, unregister, register — it reads as the method it was)
+    from ..astutil import inlined_view as _iv_ed
+    fn = _iv_ed(fn, pm.helper_finder("ExplainableObject"), rounds=2, max_body=20)
     res.instances += 1
     from ..astutil import enorm
     from ..paths import enumerate_paths, path_formula, consistent, parse
